@@ -479,8 +479,10 @@ class Check:
         self.extra = {}
         self.findings = load_findings(prop)
         os.makedirs(os.path.join(WORK, "replay"), exist_ok=True)
-        os.makedirs(os.path.join(WORK, prop), exist_ok=True)
-        self.dir = os.path.join(WORK, prop)
+        # self-test runs against a changed copy of the repository (VERIF_EVIDENCE_DIR set) get a work directory of their own
+        sub = prop + ("-alt%d" % os.getpid() if os.environ.get("VERIF_EVIDENCE_DIR") else "")
+        os.makedirs(os.path.join(WORK, sub), exist_ok=True)
+        self.dir = os.path.join(WORK, sub)
 
     def stage(self, name, t0, **info):
         d = {"stage": name, "wall_s": round(time.time() - t0, 2)}
